@@ -22,6 +22,7 @@ import (
 	"time"
 
 	"github.com/parquet-go/parquet-go"
+	"github.com/parquet-go/parquet-go/deprecated"
 )
 
 // c10SW is what the harness uses of a SortingWriter[T].
@@ -332,6 +333,7 @@ func c10InitFacs() {
 	c10AddFac[int64, c10TDec64]("decimal(int64)", "decimal(int64)", i64)
 	c10AddFac[[9]byte, c10TDecF9]("decimal(flba9)", "decimal(flba9)", func(t c10TV) (a [9]byte) { copy(a[:], t.b); return })
 	c10AddFac[[16]byte, c10TDecF16]("decimal(flba16)", "decimal(flba16)", arr16)
+	c10AddFac[deprecated.Int96, c10TPlain[deprecated.Int96]]("int96", "int96", c10Int96)
 }
 
 // c10TypedSelfTest: the schema the library derives of every struct is the Group schema of its columns
